@@ -140,7 +140,15 @@ impl SocksListener {
         let auth_server = PasswordAuth {
             required: self.auth.required,
         };
-        let request = SocksRequest::read_from(&mut socket, auth_server).await?;
+        let request = match SocksRequest::read_from(&mut socket, auth_server).await {
+            Ok(request) => request,
+            Err(e) => {
+                // the connection is registered already: close its record with an error state
+                warn!("{}: handshake error: {}: cause: {:?}", self.name, e, e.cause);
+                ctx.on_error(e).await;
+                return Ok(());
+            }
+        };
         debug!("request {:?}", request);
 
         ctx.write()
@@ -186,9 +194,17 @@ impl SocksListener {
                     None
                 };
                 let target = into_unspecified(local).into();
-                let (mut listen_addr, frames) = setup_udp_session(local, remote)
+                let (mut listen_addr, frames) = match setup_udp_session(local, remote)
                     .await
-                    .context("setup_udp_session")?;
+                    .context("setup_udp_session")
+                {
+                    Ok(session) => session,
+                    Err(e) => {
+                        warn!("{}: handshake error: {}: cause: {:?}", self.name, e, e.cause);
+                        ctx.on_error(e).await;
+                        return Ok(());
+                    }
+                };
 
                 if let Some(override_addr) = self.override_udp_address {
                     listen_addr = SocketAddr::new(override_addr, listen_addr.port());
